@@ -171,7 +171,7 @@ pub fn run(ctx: &mut Ctx) {
         !ctx.should_stop()
     });
     // documents and their mutations
-    let p = DocParams { max_nodes: doc_nodes, globals: vec![crate::spec::ID_TAG, crate::spec::ID_VOID], exclude: vec![], unknown_subsets: true, devs: 1, payload_classes: false, big_payloads: false, noncanonical: true, width_devs: true, extras: true };
+    let p = DocParams { max_nodes: doc_nodes, globals: vec![crate::spec::ID_TAG, crate::spec::ID_VOID], exclude: vec![], unknown_subsets: true, devs: 1, payload_classes: false, big_payloads: false, noncanonical: true, width_devs: true, extras: true, all_widths: false };
     // mutated size fields can declare gigabytes (legitimately allocated below the default 4 GB limit, see C17):
     // the mutation corpus runs with a 64 KiB limit so that the sweep stays fast
     let mcfgs: Vec<Cfg> = cfgs.iter().filter(|c| c.cap.is_none() && (c.buffered.is_empty() || c.allow == 0)).map(|c| { let mut c = c.clone(); c.max_size = MaxSize::Limit(1 << 16); c }).collect();
